@@ -1181,7 +1181,8 @@ type (
 		chSocketReadError   chan struct{}
 		socketReadErrorOnce sync.Once
 
-		rd atomic.Value // read deadline for Accept()
+		rd              atomic.Value  // read deadline for Accept()
+		chDeadlineEvent chan struct{} // tells a blocked Accept() that the deadline changed
 	}
 )
 
@@ -1403,19 +1404,43 @@ func (l *Listener) Accept() (net.Conn, error) {
 
 // AcceptKCP accepts a KCP connection
 func (l *Listener) AcceptKCP() (*UDPSession, error) {
-	var timeout <-chan time.Time
-	if tdeadline, ok := l.rd.Load().(time.Time); ok && !tdeadline.IsZero() {
-		timer := time.NewTimer(time.Until(tdeadline))
-		defer timer.Stop()
+	var timeout *time.Timer
+	var c <-chan time.Time
 
-		timeout = timer.C
+RESET_TIMER:
+	// deadline for the current accept operation
+	if tdeadline, ok := l.rd.Load().(time.Time); ok && !tdeadline.IsZero() {
+		if timeout == nil {
+			timeout = time.NewTimer(time.Until(tdeadline))
+			c = timeout.C
+			defer timeout.Stop()
+		} else {
+			timeout.Reset(time.Until(tdeadline))
+			c = timeout.C
+		}
+	} else if timeout != nil {
+		timeout.Stop()
+		c = nil // disable timeout select case
 	}
 
 	select {
-	case <-timeout:
+	case <-l.chDeadlineEvent:
+		if timeout != nil {
+			if !timeout.Stop() {
+				select {
+				case <-timeout.C:
+				default:
+				}
+			}
+		}
+		goto RESET_TIMER
+	case <-c:
+		if tdeadline, ok := l.rd.Load().(time.Time); !ok || tdeadline.IsZero() || time.Now().Before(tdeadline) {
+			goto RESET_TIMER // the deadline was replaced after this timer was armed
+		}
 		return nil, errors.WithStack(errTimeout)
-	case c := <-l.chAccepts:
-		return c, nil
+	case s := <-l.chAccepts:
+		return s, nil
 	case <-l.chSocketReadError:
 		return nil, l.socketReadError.Load().(error)
 	case <-l.die:
@@ -1433,6 +1458,11 @@ func (l *Listener) SetDeadline(t time.Time) error {
 // SetReadDeadline implements the Conn SetReadDeadline method.
 func (l *Listener) SetReadDeadline(t time.Time) error {
 	l.rd.Store(t)
+	// wake up a blocked Accept() so that it follows the new deadline
+	select {
+	case l.chDeadlineEvent <- struct{}{}:
+	default:
+	}
 	return nil
 }
 
@@ -1548,6 +1578,7 @@ func serveConn(block BlockCrypt, dataShards, parityShards int, conn net.PacketCo
 	l.parityShards = parityShards
 	l.block = block
 	l.chSocketReadError = make(chan struct{})
+	l.chDeadlineEvent = make(chan struct{}, 1)
 	go l.monitor()
 	return l, nil
 }
